@@ -109,7 +109,9 @@ def corr(ctx, label, maxlen, alphabet):
     if rc2 != 0:
         ctx.diag.append("extracted model crashed: " + out2[-300:])
     ctx.compare("Repo.spec vs repositoryInMemory, %s" % label, model, os.path.join(d, "impl.txt"), cases)
+    validated = ctx.cov.get("traces_validated_against_impl", 0)
     ctx.compare("Repo.spec vs porcupine model, %s" % label, model, os.path.join(d, "gospec.txt"), cases)
+    ctx.cov["traces_validated_against_impl"] = validated  # the second comparison is model vs model, not vs the implementation
 
 
 def run(ctx):
